@@ -196,34 +196,52 @@ void SampledDimension::samplingInterval(double interval) {
 }
 
 
+// coordinate of sample k, computed exactly as SampledDimension::positionAt does
+static inline double sampledCoordinate(double k, double offset, double sampling_interval) {
+    return k * sampling_interval + offset;
+}
+
+
 boost::optional<ndsize_t> getSampledIndex(const double position, const double offset, const double sampling_interval, const PositionMatch match) {
     boost::optional<ndsize_t> index;
-    if (position < offset && (match != PositionMatch::Greater && match != PositionMatch::GreaterOrEqual)) {
+    bool greater = (match == PositionMatch::Greater || match == PositionMatch::GreaterOrEqual);
+    if (std::isnan(position) || (std::isinf(position) && position > 0)) {
         return index;
     }
-    double tmp;
-    if (match == PositionMatch::Greater || match == PositionMatch::GreaterOrEqual) {
-        tmp = ceil((position - offset) / sampling_interval);
-        if (tmp < 0.0) {
-            tmp = 0.0;
+    if (position < offset || (std::isinf(position) && position < 0)) {
+        if (greater) {
+            index = 0;
         }
-        bool equals = fabs(tmp * sampling_interval + offset - position) <= numeric_limits<double>::epsilon();
-        index = (match == PositionMatch::Greater && equals) ? static_cast<ndsize_t>(tmp + 1) : static_cast<ndsize_t>(tmp);
-    } else if (match == PositionMatch::Less || match == PositionMatch::LessOrEqual) {
-        tmp = floor((position - offset) / sampling_interval);
-        bool equals = fabs(tmp * sampling_interval + offset - position) <= numeric_limits<double>::epsilon();
-        if (match == PositionMatch::Less && equals) { 
-            if (tmp >= 1) {
-                index = static_cast<ndsize_t>(tmp - 1);
-            } 
-        } else {
-            index = static_cast<ndsize_t>(tmp);
+        return index;
+    }
+    // le: the largest sample index whose coordinate is <= position. The quotient only gives an
+    // estimate (it may be off by one due to rounding), the decision is made by comparing the
+    // position with the sample coordinates themselves.
+    double le = floor((position - offset) / sampling_interval);
+    if (le < 0.0) {
+        le = 0.0;
+    }
+    while (le > 0.0 && sampledCoordinate(le, offset, sampling_interval) > position && le - 1.0 != le) {
+        le -= 1.0;
+    }
+    while (sampledCoordinate(le + 1.0, offset, sampling_interval) <= position && le + 1.0 != le) {
+        le += 1.0;
+    }
+    bool equals = sampledCoordinate(le, offset, sampling_interval) == position;
+    if (match == PositionMatch::GreaterOrEqual) {
+        index = static_cast<ndsize_t>(equals ? le : le + 1);
+    } else if (match == PositionMatch::Greater) {
+        index = static_cast<ndsize_t>(le + 1);
+    } else if (match == PositionMatch::LessOrEqual) {
+        index = static_cast<ndsize_t>(le);
+    } else if (match == PositionMatch::Less) {
+        if (!equals) {
+            index = static_cast<ndsize_t>(le);
+        } else if (le >= 1) {
+            index = static_cast<ndsize_t>(le - 1);
         }
-    } else {
-        tmp = round((position - offset) / sampling_interval);
-        if (fabs(tmp * sampling_interval + offset - position) <= numeric_limits<double>::epsilon()) {
-            index = static_cast<ndsize_t>(tmp);
-        }
+    } else if (equals) {
+        index = static_cast<ndsize_t>(le);
     }
     return index;
 }
@@ -406,11 +424,11 @@ boost::optional<ndsize_t> getSetIndex(const double position, std::vector<std::st
         }
         
 
-        bool equals = fabs(tmp - position) <= numeric_limits<double>::epsilon();
+        bool equals = tmp == position;
         index = (match == PositionMatch::Greater && equals) ? static_cast<ndsize_t>(tmp + 1) : static_cast<ndsize_t>(tmp);
     } else if (match == PositionMatch::Less || match == PositionMatch::LessOrEqual) {
         tmp = floor(position);
-        bool equals = fabs(tmp - position) <= numeric_limits<double>::epsilon();
+        bool equals = tmp == position;
         if (match == PositionMatch::Less && equals) { 
             if (tmp >= 1) {
                 index = static_cast<ndsize_t>(tmp - 1);
@@ -420,7 +438,7 @@ boost::optional<ndsize_t> getSetIndex(const double position, std::vector<std::st
         }
     } else {
         tmp = round(position);
-        if (fabs(tmp - position) <= numeric_limits<double>::epsilon()) {
+        if (tmp == position) {
             index = static_cast<ndsize_t>(tmp);
         }
     }
@@ -802,11 +820,11 @@ boost::optional<ndsize_t> getDataFrameIndex(const double position, const ndsize_
             tmp = 0.0;
         }
 
-        bool equals = fabs(tmp - position) <= numeric_limits<double>::epsilon();
+        bool equals = tmp == position;
         index = (match == PositionMatch::Greater && equals) ? static_cast<ndsize_t>(tmp + 1) : static_cast<ndsize_t>(tmp);
     } else if (match == PositionMatch::Less || match == PositionMatch::LessOrEqual) {
         tmp = floor(position);
-        bool equals = fabs(tmp - position) <= numeric_limits<double>::epsilon();
+        bool equals = tmp == position;
         if (match == PositionMatch::Less && equals) { 
             if (tmp >= 1) {
                 index = static_cast<ndsize_t>(tmp - 1);
@@ -816,7 +834,7 @@ boost::optional<ndsize_t> getDataFrameIndex(const double position, const ndsize_
         }
     } else {
         tmp = round(position);
-        if (fabs(tmp - position) <= numeric_limits<double>::epsilon()) {
+        if (tmp == position) {
             index = static_cast<ndsize_t>(tmp);
         }
     }
